@@ -414,7 +414,14 @@ class VersionsMachine(RuleBasedStateMachine):
         self.hist.append(('legacy_add_supported', dict(vid=vid, which=which)))
         if vid in self.sup_model or any(r[0] == vid for r in self.records):
             return
-        proto = self.snapshot[which % len(self.snapshot)][1]
+        if which % 4 == 0:
+            # a protocol number the records do not know (the supported and
+            # release tables are projections of this dict alone)
+            self.fresh += 1
+            proto = 300000 + self.fresh
+            self.ctx.label('legacy_new_number')
+        else:
+            proto = self.snapshot[which % len(self.snapshot)][1]
         self.mc.SUPPORTED_MINECRAFT_VERSIONS[vid] = proto
         self.sup_model[vid] = proto
 
